@@ -689,6 +689,17 @@ class Sim:
 
             self.H = {o: [[blk(M, i, j) for j in range(inp.nb)] for i in range(inp.nb)] for o, M in inp.full.items()}
             self.h_is_series = False
+            if world.get("nested_lazy"):
+                # the same nested lists of blocks, but as the elements of a lazily evaluated series without finite dimensions
+                nested = self.H
+
+                def hcb(*index):
+                    index = tuple(int(i) for i in index)
+                    return env.h_call(index, index, lambda: nested.get(index, zero))
+
+                self.nested = nested
+                self.H = BlockSeries(eval=hcb, shape=(), n_infinite=inp.npert, name="Huser")
+                self.h_is_series = True
         elif fmt == "symkeys":
             # {monomial: matrix} with symbolic keys; symbols are ordered by name, so x0 < x1 < x2 keeps the order of axes
             import sympy
@@ -739,8 +750,8 @@ class Sim:
         objs = dict(self.inp.audit_objects())
         for c, dct in self._fd_dicts.items():
             objs[("fd_keys", c)] = np.array(sorted(dct))
-        if self.w["fmt"] == "nested" and isinstance(self.H, dict):
-            for o, rows in self.H.items():
+        if self.w["fmt"] == "nested" and isinstance(getattr(self, "nested", self.H), dict):
+            for o, rows in getattr(self, "nested", self.H).items():
                 for i, row in enumerate(rows):
                     for j, blk in enumerate(row):
                         objs[("nested", o, i, j)] = blk
@@ -775,6 +786,29 @@ class Sim:
             def solve_sylvester(Y, index):
                 env.tick("S", tuple(int(i) for i in index))
                 return div(Y, int(index[0]), int(index[1]))
+
+            # the caller's solver need not be a plain two-argument function
+            sig = self.w.get("solver_sig", "plain")
+            if sig == "varargs":
+                plain = solve_sylvester
+
+                def solve_sylvester(Y, *rest):  # a pass-through wrapper (tracing / timing decorators look like this)
+                    return plain(Y, *rest)
+            elif sig == "callable":
+                plain_c = solve_sylvester
+
+                class Solver:
+                    def __call__(self, Y, index):
+                        return plain_c(Y, index)
+
+                solve_sylvester = Solver()
+            elif sig == "partial":
+                import functools
+
+                def with_option(option, Y, index, _plain=solve_sylvester):
+                    return _plain(Y, index)
+
+                solve_sylvester = functools.partial(with_option, "option")
         return solve_sylvester
 
     def build(self, c):
@@ -1012,11 +1046,19 @@ def fresh_table(world, used=None):
                 if isinstance(x, TracerOverflow):
                     raise TracerOverflow() from None
                 x = x.__cause__ or x.__context__
-            table[key] = ("raise", type(e).__name__)
+            table[key] = ("raise", type(e).__name__, str(e)[:160])
     if len(_TABLE_CACHE) > 6:
         _TABLE_CACHE.clear()
     _TABLE_CACHE[wkey] = table
     return table
+
+
+def fails_alike(table, e):
+    """The undisturbed computation itself fails with this very error for some element (a failure outside the library's
+    control, e.g. an operand format the array library cannot add): whether a request runs into that element then depends
+    on which zeros are already known, exactly as for ill-posed members (DESIGN.md 10.3)."""
+    name, msg = type(e).__name__, str(e)[:160]
+    return any(v[0] == "raise" and v[1] == name and (len(v) < 3 or v[2] == msg) for v in table.values())
 
 
 def fresh_single(world, key):
@@ -1028,7 +1070,7 @@ def fresh_single(world, key):
         sim.build(c)
         return _snap(norm(sim.series(c, s)[(i, j, *n)]))
     except Exception as e:
-        return ("raise", type(e).__name__)
+        return ("raise", type(e).__name__, str(e)[:160])
 
 
 def _snap(n):
@@ -1345,6 +1387,9 @@ class GraphProp:
                         continue
                     alone = fresh_single(world, key)
                     bump("single_fresh_checked")
+                    if alone[0] == "raise" and self._external_failure({key: alone}, [key]):
+                        bump("deterministic_failure_reached_by_this_history")
+                        continue
                     if not same(alone, table[key], stats):
                         fail("fresh-single-vs-walk", f"{key}: a fresh computation asked for this element only gives {self._show_n(alone)}, the ascending walk of a fresh computation gives {self._show_n(table[key])}")
                         break
@@ -1465,10 +1510,13 @@ class GraphProp:
                 # whether the ill-defined quantity is needed depends on which zeros are already known
                 bump("illposed_raise_where_table_value")
                 return "raised"
+            if fails_alike(table, raised):
+                bump("deterministic_failure_reached_by_this_history")
+                return "raised"
             fail("unexpected-raise", f"{desc}: a fresh computation returns a value, this request raised {type(raised).__name__}: {raised}")
             return "raised"
         if exp_raise:
-            if not ill:
+            if not ill and not self._external_failure(table, [cell_keys[k] for k in exp_raise]):
                 fail("outcome-history-dependent", f"{desc}: a fresh computation raises {table[cell_keys[exp_raise[0]]][1]} for {cell_keys[exp_raise[0]]}, this request returned a value")
                 return "ok"
             bump("illposed_value_where_table_raised")
@@ -1536,13 +1584,13 @@ class GraphProp:
                         if isinstance(x, TracerOverflow):
                             raise TracerOverflow() from None
                         x = x.__cause__ or x.__context__
-                    ill = shares_eigenvalues(world) and isinstance(e, ValueError) and "share eigenvalues" in str(e)
+                    ill = (shares_eigenvalues(world) and isinstance(e, ValueError) and "share eigenvalues" in str(e)) or fails_alike(table, e)
                     if want[0] != "raise" and not ill:
                         fail("final-raise", f"final sweep: {key} raised {type(e).__name__}: {e} (a fresh computation returns a value)")
                         return
                     continue
                 if want[0] == "raise":
-                    if not shares_eigenvalues(world):
+                    if not shares_eigenvalues(world) and not self._external_failure(table, [key]):
                         fail("outcome-history-dependent", f"final sweep: {key} returned a value, a fresh computation raises {want[1]}")
                         return
                     continue
@@ -1555,6 +1603,14 @@ class GraphProp:
                 fail("pending-left", f"after final sweep: in-flight marker left in {pend[:3]}")
         finally:
             env.end()
+
+    @staticmethod
+    def _external_failure(table, keys):
+        """The fresh computation failed for these elements with an error that is not one of the library's own verdicts
+        (ValueError / TypeError / NotImplementedError raised by pymablock would be a finding of another property):
+        an error from the array library below, which another history may never reach because of known zeros."""
+        msgs = [table[k][2] for k in keys if len(table[k]) > 2]
+        return bool(msgs) and all("could not be broadcast" in m or "inconsistent shapes" in m for m in msgs)
 
     @staticmethod
     def _desc(what):
@@ -1672,6 +1728,11 @@ class GraphProp:
                 spec["fd"] = None
             spec["d0_herm"] = r.random() < 0.5
             comps.append(spec)
+        extra = {}
+        if fmt == "nested" and r.random() < profile.get("p_nested_lazy", 0.4):
+            extra["nested_lazy"] = True
+        if any(sp.get("solver") == "custom" for sp in comps) and r.random() < 0.5:
+            extra["solver_sig"] = r.choice(["varargs", "varargs", "callable", "partial"])
         if ncomp >= 2 and r.random() < profile.get("p_chain", 0.2) and fmt != "scalar_vecs" or (ncomp >= 2 and profile.get("p_chain", 0.2) >= 1):
             comps[-1] = {"herm": comps[0]["herm"], "fd": sorted(range(nb)) if r.random() < 0.7 else None,
                          "solver": "default", "chain": 0, "d0_herm": False}
@@ -1751,6 +1812,8 @@ class GraphProp:
             w["box"] = {1: 6, 2: 3, 3: 2}[npert]
             w["cap"] = {1: 6, 2: 4, 3: 3}[npert]
         w["comps"] = comps
+        extra.pop("solver_sig", None) if not any(sp.get("solver") == "custom" for sp in comps) else None
+        w.update(extra)
         return w
 
     def gen_ops(self, r, world, tier, profile, cone=None):
